@@ -273,6 +273,7 @@ def run(tape, scenario):
     bus.wkc_fault = wkc_fault
 
     cycling = [False]
+    preset = {}
     outcome = []
 
     async def main(loop):
@@ -282,11 +283,20 @@ def run(tape, scenario):
             sg = g.sg = FastSyncGroup(ec, g.devices)
             orig_update = sg.update_devices
 
-            def update_devices(data, orig_update=orig_update):
+            def update_devices(data, orig_update=orig_update, sg=sg):
                 if not cycling[0]:
                     cycling[0] = True
                     if scenario in ("wire-faults", "two-groups"):
                         wf.loss = [5, 15, 30][tape.draw("cfg/loss", 3)]
+                if not preset.get(id(sg)) and sg.wkc_errors:
+                    # the error counter of a group that has been running for long: it is
+                    # 32 bits wide and 0 means "outputs disabled"
+                    preset[id(sg)] = True
+                    if tape.chance("c21/preset-error-counter", 30):
+                        sg.wkc_errors = tape.pick("c21/error-counter", [
+                            0xffff, 0xfffe, 0xfff0, 0x10000, 0xff, 0xffffffff, 0xfffffff0,
+                            0x7fffffff])
+                        world.count("c21/error-counter-preset-at-a-boundary")
                 return orig_update(data)
             sg.update_devices = update_devices
             task = sg.start()
